@@ -125,7 +125,10 @@ class Unencodable(object):
     __hash__ = None
 
 
-ERRS = {'Err': Err, 'Err2': Err2, 'ValueError': ValueError, 'KeyError': KeyError, 'Interrupt': Interrupt}
+ERRS = {'Err': Err, 'Err2': Err2, 'ValueError': ValueError, 'KeyError': KeyError, 'Interrupt': Interrupt,
+        'AssertionError': AssertionError, 'RuntimeError': RuntimeError, 'StopIteration': StopIteration,
+        'LookupError': LookupError}
+ENDING_EXCS = ['Err', 'Err', 'AssertionError', 'ValueError', 'KeyError', 'RuntimeError', 'StopIteration']
 
 
 def build(d, memo=None):
